@@ -92,29 +92,42 @@ def gen_gfa1(rng):
         for (f, fo, t, to, ov) in links:
             adj.setdefault((f, fo), []).append(((t, to), ov))
             adj.setdefault((t, S.inv(to)), []).append(((f, S.inv(fo)), S.cigar_complement(ov)))
-        cur = rng.choice(list(adj))
-        segs, ovs = [cur], []
-        for _ in range(rng.randint(1, 4)):
-            if cur not in adj:
-                break
-            nxt, ov = rng.choice(adj[cur])
-            segs.append(nxt)
-            ovs.append(ov)
-            cur = nxt
-        if len(segs) >= 2:
-            circ = False
-            for nxt, ov in adj.get(cur, []):
-                if nxt == segs[0] and rng.random() < 0.5:
+        prev = None
+        for pn in ["pth", "pth2", "pth3"][:rng.choice([1, 1, 2, 3])]:
+            if prev is not None and rng.random() < 0.5:
+                # the previous path walked the other way round (same links, opposite direction)
+                psegs, povs = prev
+                segs = [(a, S.inv(b)) for a, b in reversed(psegs)]
+                ovs = [S.cigar_complement(o) for o in reversed(povs[:len(psegs) - 1])]
+            else:
+                cur = rng.choice(list(adj))
+                segs, ovs = [cur], []
+                for _ in range(rng.randint(1, 4)):
+                    if cur not in adj:
+                        break
+                    nxt, ov = rng.choice(adj[cur])
+                    segs.append(nxt)
                     ovs.append(ov)
-                    circ = True
-                    break
-            lines.append("P\tpth\t%s\t%s" % (",".join(a + b for a, b in segs), ",".join(ovs)))
+                    cur = nxt
+                if len(segs) >= 2:
+                    for nxt, ov in adj.get(cur, []):
+                        if nxt == segs[0] and rng.random() < 0.5:
+                            ovs.append(ov)
+                            break
+            if len(segs) >= 2:
+                lines.append("P\t%s\t%s\t%s" % (pn, ",".join(a + b for a, b in segs), ",".join(ovs)))
+                prev = (segs, ovs)
     elif rng.random() < 0.3:
         lines.append("P\tpth\t%s+\t*" % names[0])
     if rng.random() < 0.5:
         lines.insert(0, "H\tVN:Z:1.0" + ("\tab:i:5" if rng.random() < 0.5 else ""))
     if rng.random() < 0.3:
         lines.append("# a comment")
+    if rng.random() < 0.5:
+        # any arrival order (paths before the links they use, links before their segments)
+        body = [l for l in lines if not l.startswith("H")]
+        rng.shuffle(body)
+        lines = [l for l in lines if l.startswith("H")] + body
     return lines
 
 
